@@ -53,6 +53,7 @@ static void sub_solve() {
         Rng rpart(cs ^ 0x5bd1e9955bd1e995ULL); Part rp = vfm::random_part(p.A.n, w.size, rpart);     // own stream: every other draw is independent of the rank count
         bool budget = r.coin(0.2), left = !budget && (sv == "bicgstab" || sv == "bicgstabl" || sv == "gmres" || sv == "lgmres") && r.coin(0.25), rebuildable = r.coin();
         size_t maxiter = budget ? (size_t)r.range(3, 9) : (sv == "richardson" ? 1000 : 300); double tol = 1e-8;
+        if (!budget) maxiter = (size_t)vf::opt_int("force_maxiter", (long)maxiter);     // development only
         ptree prm; prm.put("precond.coarsening.type", co); prm.put("precond.relax.type", rl); prm.put("precond.direct.type", ds); prm.put("precond.repart.type", "merge");
         unsigned coarse_enough = (unsigned)r.range(20, 120); prm.put("precond.coarse_enough", coarse_enough); prm.put("precond.allow_rebuild", rebuildable);
         if (repart) { prm.put("precond.repart.enable", true); prm.put("precond.repart.min_per_proc", r.range(30, 400)); prm.put("precond.repart.shrink_ratio", r.range(2, 4)); }
